@@ -5,35 +5,11 @@ V = os.path.dirname(os.path.dirname(os.path.abspath(__file__)))
 ids = [json.loads(l)["id"] for l in open(os.path.join(V, "properties.jsonl"))]
 
 MC = "model_checking"
-CHECKS = {
- "C01": dict(sec="6 C01", tech="TLA+ spec TCSync model-checked with TLC (exhaustive + simulation); TLC-generated histories replayed on real replicas; traces validated against the spec by TLC (TraceSync)",
-   text="TLC checks ReplicaInvariant and Converged (tasks = replay of the server chain + pending ops) on every state of the TCSync specification for sequential histories incl. multi-version syncs; the code is bound to the spec by replaying TLC-generated histories on real replicas (in-memory and SQLite) and validating every recorded request, reply and committed state against the spec with the invariants evaluated at every step.",
-   note="Bounded: exhaustive for 2-3 replicas, 1 task, <=5 edits; simulation beyond. Trusts the harness chain server (the abstract protocol), TLC, and the tap's read-back of storage."),
- "C02": dict(sec="6 C02", tech="TLC over all request-level interleavings of concurrent syncs (phased initial states); schedules replayed by granting one server request at a time to real Replica::sync futures; TLC trace validation",
-   text="Every interleaving at single-request grain of 2 (thorough: 3) concurrent syncs over all prior local histories of <=2 operations is visited by TLC with ReplicaInvariant, Converged, NoOutOfSync and NoDuplicateSend; TLC schedules are replayed deterministically on the real code through a gated server and each request's content is compared with the specification's rebased list.",
-   note="Bounded prior histories; requests are atomic at the abstract server; a SPEC mismatch in request shape is reported as a rejection."),
- "C04": dict(sec="6 C04", tech="TLC with abort / lost-reply actions at every program counter of the sync; fault injection on real replicas at every server request and every storage call index; TLC trace validation",
-   text="The specification enables an abort at every pc and a lost reply for add_version/add_snapshot; TLC checks ReplicaInvariant, Converged, NoOutOfSync after every fault. On the code, TLC-chosen fault schedules are injected at the gated server and every storage call index 1..45 of a sync transaction is failed; the replica is re-read through a fresh transaction and all replicas are synced to quiescence, validated by TLC against the spec.",
-   note="Process stop inside the sync transaction is covered as an abandoned transaction (SQLite kill runs are C06)."),
- "C12": dict(sec="6 C12", tech="TLC on TCSync with all urgency replies and avoid_snapshots; every uploaded snapshot decoded independently (zlib+JSON) and validated against the spec state by TLC trace validation",
-   text="SnapshotFaithful (snapshot = replay of the chain up to its version) and convergence of fresh replicas starting from snapshots are invariants checked by TLC over all urgency/threshold combinations and multi-version syncs; on the code every add_snapshot body is decoded by the harness and compared with the specification's task set for that version, with Unicode-heavy values in one family.",
-   note="Snapshot compression/JSON decoding by the harness (flate2 + serde_json generic Value) is trusted."),
- "C03": dict(sec="6 C03", tech="TLC over all combinations of concurrent operation families x timestamp orders x sync orders against an oracle written from the documented conflict rules (MCConflict); rounds replayed on real replicas; TLC trace validation",
-   text="MCConflict enumerates every pair (thorough: triple) of replicas x operation family x timestamp order x sync order (and a causally later change with arbitrary timestamp) and compares the quiescent state with an oracle that mentions neither the transformation table nor the sync order; the same rounds are executed on real replicas and validated step by step against the specification, so the final state of the code equals the specification state that TLC has shown equal to the oracle.",
-   note="For equal timestamps with different values the documentation leaves the winner open and the oracle admits either; families are bounded to <=3 operations on one shared task plus one other task."),
- "C14": dict(sec="6 C14", tech="TLC invariant WireClean on TCSync with undo points and populated deletes; every add_version body parsed as generic JSON with exact field sets and compared with the spec's outgoing list by TLC trace validation; versions served back re-rendered in other documented forms",
-   text="The specification states what may be sent (ToSync: only stripped Create/Delete/Update) and TLC checks it on every stored version; on the code each version body is parsed independently of the crate's types (UTF-8, exact field sets, RFC 3339 Z timestamps) and compared with the specification's list; for the converse every pulled version is served in a different rendering of the documented format (key order, whitespace, \\u escapes, timestamp precision) and the replica's resulting state is validated.",
-   note="Documented top-level shape per docs/src/sync-protocol.md as corrected by fix a71c422; renderings are value-preserving re-encodings, not arbitrary third-party documents."),
- "C05": dict(sec="6 C05", tech="TLA+ spec TCReplica (documented operation model) + TLC enumeration of all short batches; every batch committed through Replica::commit_operations on both storages; TLC trace validation of the committed state; storage-call fault sweep",
-   text="The specification's Commit action is the documented operation model applied one operation at a time; TLC enumerates every batch of length <=2-3 over {create, delete, set, remove, undo point} x 2 tasks, valid or not, on every prior state, and each batch is committed on the real code (in-memory and SQLite); the committed tasks, recorded operations, working set and base version are validated against the specification, with ReplicaInvariant evaluated on every state; every storage call index of a commit is failed to check all-or-nothing.",
-   note="Batches bounded in length; with syncs in the history only valid batches are used (operational transformation presupposes valid operations, docs/src/storage.md)."),
- "C07": dict(sec="6 C07", tech="TLC on TCReplica/TCSync undo actions with the property's clauses checked at every undo (MCReplica); behaviours incl. stale lists and syncs replayed on both storages; TLC trace validation incl. the next version sent",
-   text="TLC explores commits after undo points, fetching and committing reversals (fresh and stale lists), repeated undo and syncs; at every undo it checks: exact earlier content, exactly those operations withdrawn, success reported; stale list -> unchanged + false; nothing to undo after sync. The behaviours are replayed on the real code; results, states and the contents of later add_version requests are validated against the specification.",
-   note="Reversal of operations that were invalid when committed, and the boolean for a lone undo point, are modelled as implemented and not claimed."),
- "C15": dict(sec="6 C15", tech="TLC over all task sets x status mixes x prior working sets x rebuild sequences with the property's clauses as a checked history predicate (MCReplica WInit); same cases replayed on both storages with prior working sets written through the StorageTxn API; TLC trace validation",
-   text="The specification models working_set::rebuild including the write-back through set_working_set_item/add_to_working_set; TLC checks the clauses (exactly the pending/recurring tasks once, position 0 empty, numbers stable without renumbering and newcomers after all numbers in use, 1..n in order with renumbering, commit appends) from every prior state; the cases are executed on the real code on both storages and each resulting working set is validated against the specification.",
-   note="Tasks <= 3, prior working sets <= 3 (thorough 4) entries in the exhaustive family; longer histories by simulation."),
-}
+CHECKS = {}
+D = os.path.join(V, "checks", "manifest.d")
+for f in sorted(os.listdir(D)):
+    if f.endswith(".json"):
+        CHECKS[f[:-5]] = json.load(open(os.path.join(D, f)))
 
 def check(pid, c):
     return {
